@@ -41,9 +41,19 @@ Print Assumptions C06_failed_creation_leaves_nothing.
 Theorem C06_failed_overlapped_creation_leaves_nothing : forall s e c s' u,
   reachable s -> assocN e (s_snaps s) <> None ->
   step s (OFinish e c) = (s', u) -> o_rc u = 1 ->
-  nothing_left e s' /\ launched_killed e c u.
+  (nothing_left e s' /\ launched_killed e c u) /\ o_pend u = 0.
 Proof. exact finish_nothing_behind. Qed.
 Print Assumptions C06_failed_overlapped_creation_leaves_nothing.
+
+(* --- "its pending hook calls have been cancelled", failure tail of a creation: no call of the
+       environment is left pending and uncancelled — also those started by the leave_<state> hooks that
+       TeardownEnvironment itself runs.  Like the o_pend clause of C06_destroy_nothing_behind this rests
+       on gen/Gen_TdOrder.v (the source order of TeardownEnvironment's steps, regenerated on every run):
+       cancelCallsPendingAwait comes after the last point where a pending call can be started. *)
+Theorem C06_failed_creation_cancels_calls : forall s e c s' u,
+  reachable s -> wf_op s (OCreate e c) = true -> step s (OCreate e c) = (s', u) -> o_rc u = 1 -> o_pend u = 0.
+Proof. exact failed_creation_cancels_calls. Qed.
+Print Assumptions C06_failed_creation_cancels_calls.
 
 (* --- "DESTROY hooks run only after the other tasks were released": in every consistent state (every
        reachable state is one — next theorem — and so is every intermediate state inside a request,
@@ -92,12 +102,13 @@ Proof. vm_compute. repeat split; reflexivity. Qed.
 Example C06_nonvacuous :
   let c := mkSpec [0; 1] 0 [mkRole RPlain true 0 false; mkRole (RHookTask false 3%Z) false 0 false;
                             mkRole (RHookCall false 3%Z) false 0 false; mkRole (RHookTask true (-2)%Z) true 0 false;
-                            mkRole RPend false 0 false; mkRole RPlain false 0 false] in
+                            mkRole RPend false 0 false; mkRole RPlain false 0 false; mkRole (RLeave 3) false 0 false;
+                            mkRole (RLeave 2) false 0 false] in
   let ops := [OCreate 0 c; OControl 0 2 false; OFail [(0, 5)]] in
   let s := run st0 ops in
   valid_hist st0 ops = true /\
   (exists x, find_env 0 (s_envs s) = Some x /\ e_state x = ES_RUNNING /\ length (merged x) = 2%nat /\
-             e_pend x = 1) /\
+             e_pend x = 2 /\ leave_cnt x ES_RUNNING = 1) /\
   o_rc (snd (step s (ODestroy 0 false true false false))) = 0 /\
   length (o_kills (snd (step s (ODestroy 0 false true false false)))) = 4%nat.
 Proof. vm_compute. split; [reflexivity|]. split; [|split; reflexivity]. eexists. repeat split; reflexivity. Qed.
